@@ -201,12 +201,23 @@ def read_sim_last(path, hist_var="hist", extra_vars=("cfg",)):
     return parse_state_fast("\n".join(lines), hist_var, extra_vars)
 
 
-def _sim_work(files):
+_SIM_LINE = re.compile(r'^<<"SIMPATH", "(.*)", "(.*)">>\s*$')
+
+
+def parse_sim_line(line):
+    m = _SIM_LINE.match(line)
+    if not m:
+        return None
+    cfg_s, hist_s = (x.replace('\\"', '"') for x in m.groups())
+    return {"cfg": tla2json(cfg_s)}, tla2json(hist_s)
+
+
+def _sim_work(lines):
     try:
         n = steps = 0
         digests, divs, sample = [], [], None
-        for fn in files:
-            ep = read_sim_last(fn)
+        for ln in lines:
+            ep = parse_sim_line(ln)
             if ep is None or not ep[1]:
                 continue
             extra, path = ep
@@ -224,37 +235,42 @@ def _sim_work(files):
 
 
 def sim_replay(ctx, module, cfg, num, depth, overrides, replayer, label="s2c-sim", timeout=None, spec_dir="sync"):
-    """`num` seeded random walks of length `depth` through the Gen_* spec, replayed into the real code."""
+    """`num` seeded random walks of length `depth` through the Gen_* spec, replayed into the real code.
+    `cfg` is a Sim_*.cfg: its invariant SimPrint prints (cfg, hist) of every walk once it has reached
+    length L = depth, on one line of TLC's output (no per-state files)."""
     global _REPLAYER
-    import shutil
     spec_dir = os.path.join(VERIF, "specs", spec_dir)
-    cfgp = make_cfg(os.path.join(spec_dir, cfg), overrides or {}, ctx.scratch,
-                    "%s_%s_%s" % (module, label, os.path.basename(cfg)))
-    d = os.path.join(ctx.scratch, "sim_%s_%d" % (module, len(os.listdir(ctx.scratch))))
-    os.makedirs(d)
+    ov = dict(overrides or {})
+    ov["L"] = depth
+    cfgp = make_cfg(os.path.join(spec_dir, cfg), ov, ctx.scratch, "%s_%s_%s" % (module, label, os.path.basename(cfg)))
     r = tlc.run(spec_dir, module, cfgp, timeout=timeout or ctx.pick(900, 3000), workers=1,
-                simulate={"num": num, "file": os.path.join(d, "tr")}, depth=depth, seed=ctx.seed + 1)
+                simulate={"num": num}, depth=depth + 1, seed=ctx.seed + 1)
     if not r.ok:
         raise Machinery("simulation spec reported %s" % r.violation)
-    ctx.cov["checker_cmd"].append("tlc -simulate num=%d -depth %d -config %s %s" % (num, depth, cfg, module))
-    files = sorted(os.path.join(d, f) for f in os.listdir(d))
-    if len(files) < num // 2:
-        raise Machinery("sync_paths: %d simulation files for num=%d" % (len(files), num))
-    # cross-check the fast reader against the generic one on the first walk
-    beh = tlc.read_sim_file(files[0])
-    slow = ({"cfg": canon(beh[-1][1]["cfg"])}, canon(beh[-1][1]["hist"]))
-    if jdump(slow) != jdump(read_sim_last(files[0])):
-        raise Machinery("sync_paths: fast simulation reader disagrees with tlc.read_sim_file on %s" % files[0])
+    ctx.cov["checker_cmd"].append("tlc -simulate num=%d -depth %d -config %s %s" % (num, depth + 1, cfg, module))
+    lines, seen = [], set()
+    for ln in r.out.splitlines():
+        if ln.startswith('<<"SIMPATH"') and ln not in seen:
+            seen.add(ln)
+            lines.append(ln)
+    # TLC evaluates the invariant on every candidate successor of the last step, so each walk yields
+    # several printed behaviours (same prefix, different last step); all of them are behaviours of the spec
+    if len(lines) < num // 2:
+        raise Machinery("sync_paths: %d simulation walks printed for num=%d" % (len(lines), num))
+    # cross-check the fast line reader against the generic TLA value parser on the first walk
+    m = _SIM_LINE.match(lines[0])
+    slow = ({"cfg": canon(tlaval.parse_value(m.group(1).replace('\\"', '"')))}, canon(tlaval.parse_value(m.group(2).replace('\\"', '"'))))
+    if jdump(slow) != jdump(parse_sim_line(lines[0])):
+        raise Machinery("sync_paths: fast simulation reader disagrees with tlaval")
     nproc = int(os.environ.get("VERIF_WORKERS", "16"))
     _REPLAYER = replayer
-    per = max(1, len(files) // (nproc * 3))
-    jobs = [files[i:i + per] for i in range(0, len(files), per)]
-    if len(files) < 64:
+    per = max(1, len(lines) // (nproc * 3))
+    jobs = [lines[i:i + per] for i in range(0, len(lines), per)]
+    if len(lines) < 64:
         results = [_sim_work(j) for j in jobs]
     else:
         with multiprocessing.get_context("fork").Pool(min(nproc, len(jobs))) as pool:
             results = pool.map(_sim_work, jobs, chunksize=1)
-    shutil.rmtree(d, ignore_errors=True)
     n = steps = 0
     digests = []
     for res in results:
@@ -273,7 +289,7 @@ def sim_replay(ctx, module, cfg, num, depth, overrides, replayer, label="s2c-sim
     ctx.cov["traces_validated_against_impl"] += n
     ctx.add_eval(n, distinct_keys=digests, samples=samples)
     ctx.cov["sim_runs"] = ctx.cov.get("sim_runs", []) + [
-        {"module": module, "cfg": cfg, "label": label, "overrides": canon(overrides or {}), "walks": n,
+        {"module": module, "cfg": cfg, "label": label, "overrides": canon(ov), "walks": n,
          "steps_replayed": steps, "depth": depth, "tlc_wall_s": round(r.wall_s, 2)}]
     return n
 
@@ -317,3 +333,59 @@ def binding_selftest(ctx, module, cfg, overrides, trace, corrupt_obs, replayer, 
     if d is None or d.get("step") != k:
         raise Machinery("binding self-test of %s: corrupted expected value at step %d not reported (%r)" % (module, k, d))
     ctx.cov["binding_selftest"] = "ok: corrupted observation and dropped event rejected by %s; corrupted expectation reported by the replayer" % module
+
+
+# ---------------------------------------------------------------------------------------
+# fused replay: the same TLC behaviours, other placements of event-loop iterations
+
+def fused_segments(path, needs_settle, fuse):
+    """Cut a behaviour into segments executed inside one loop iteration each.
+    needs_settle(step): the loop must run after this step (a call with timeout 0).
+    fuse(i): may step i+1 follow step i without the loop running in between.
+    Returns [("calls", [i, ...]) | ("adv", i, [k, ...])]: a group of calls back to back, or an advance
+    whose follow-up calls are performed from a callback due at the deadline."""
+    segs = []
+    n = len(path)
+    i = 0
+    while i < n:
+        if path[i]["act"] == "advance":
+            grp = []
+            k = i + 1
+            while k < n and path[k]["act"] != "advance" and fuse(k - 1) and (k == i + 1 or not needs_settle(path[k - 1])):
+                grp.append(k)
+                k += 1
+            segs.append(("adv", i, grp))
+        else:
+            grp = [i]
+            k = i + 1
+            while k < n and path[k]["act"] != "advance" and fuse(k - 1) and not needs_settle(path[k - 1]):
+                grp.append(k)
+                k += 1
+            segs.append(("calls", grp))
+        i = k
+    return segs
+
+
+def fused_replay(real, path, needs_settle, fuse, delay):
+    """Execute `path` on `real` (a harness.sync_driver._Fused object) with the given placement of loop
+    iterations; the projection is compared with the specification's after every segment and the
+    exception class of every single call with the specification's `err`.  Returns None or
+    {step, act, args, exp, obs} for the first difference."""
+    for seg in fused_segments(path, needs_settle, fuse):
+        if seg[0] == "calls":
+            idx = seg[1]
+            errs = real.run_group([(path[k]["act"], path[k]["args"]) for k in idx])
+        else:
+            idx = seg[2]
+            errs = real.advance_then(path[seg[1]]["args"][0], [(path[k]["act"], path[k]["args"]) for k in idx], delay)
+        last = idx[-1] if idx else seg[1]
+        for k, e in zip(idx, errs):
+            if e != path[k]["exp"].get("err", "none"):
+                exp = path[k]["exp"]
+                return {"step": k, "act": path[k]["act"], "args": path[k]["args"], "exp": {"err": exp.get("err", "none")},
+                        "obs": {"err": e}, "segment": [path[j]["act"] for j in ([seg[1]] if seg[0] == "adv" else []) + idx]}
+        obs = canon(real.observe(errs))
+        if obs != path[last]["exp"]:
+            return {"step": last, "act": path[last]["act"], "args": path[last]["args"], "exp": path[last]["exp"], "obs": obs,
+                    "segment": [path[j]["act"] for j in ([seg[1]] if seg[0] == "adv" else []) + idx]}
+    return None
